@@ -13,6 +13,9 @@ THEOREMS = ["C03_widths_cover", "C03_section_lines_unfold", "C03_format_is_layou
             "C03_strip_brackets_current", "C03_useful_current", "C03_compare_current",
             "C03_order_current", "C03_format_current", "C03_widths_current", "C03_layout_composition_current"]
 ASSUMPTIONS = [
+    "write(version=v) rewrites the VERS item (value v, description either the one read or the writer's standard text for v); every "
+    "other ~Version item - WRAP, DLM and 0..4 further items from the conformant pools at any position - is compared in full; a DLM "
+    "COMMA/TAB item comes back with the value SPACE: known finding dlm-rewritten, reported after every other comparison passed",
     "str(value) of a numeric header value is a plain decimal literal that num() maps back to an equal number (oracle; checked per case)",
     "str.upper/lower modelled for ASCII; generated mnemonics are ASCII",
     "the header-line grammar theorem C04_parse_all is used for the parse direction",
@@ -49,7 +52,7 @@ def conformant_item(it, sect):
 def gen_items(rng, sect, n):
     out = []
     for i in range(n):
-        m = rng.choice(MNS)
+        m = rng.choice(V_MNS if sect == "V" else MNS)
         if rng.random() < 0.08:
             m = ""
         if rng.random() < 0.1 and out:
@@ -82,10 +85,47 @@ def gen_items(rng, sect, n):
     return out
 
 
+# ~Version items whose DLM says COMMA/TAB come back as DLM SPACE (lasio fix 4749e0c: the writer always emits blank-delimited data
+# and the written file declares the delimiter it is written with).  The statement does not list that difference: it is the known
+# finding "dlm-rewritten" (corpus/C03_dlm_rewritten.json).  The class is generated; the oracle reports it under the message prefix
+# "DLM rewritten:" and only when EVERY other comparison on the same input passed (so any other difference is reported first).
+DLM_REWRITTEN = True
+V_MNS = ["CREA", "PROD", "X1", "A B", "GR_1", "a", "Kb", "RUN-2", "Q(1)", "DATE", "LOC 2", "COMP", "CREA"]
+
+
+def version_items(s):
+    """the items of ~Version in file order: VERS, WRAP, (DLM) with s.v_extra = [(position, item)] inserted as lasgen.render does"""
+    out = [("VERS", "", s.version, "CWLS LOG ASCII STANDARD"), ("WRAP", "", s.wrap, "wrap mode")]
+    if s.dlm:
+        out.append(("DLM", "", s.dlm, "delimiter"))
+    for pos, it in reversed(sorted(getattr(s, "v_extra", []), key=lambda x: x[0])):
+        out.insert(min(pos, len(out)), tuple(it))
+    return out
+
+
+def set_v_extra(s, v_extra):
+    s.v_extra = [(p, tuple(it)) for p, it in v_extra]
+    s.extra_lines = dict(s.extra_lines)
+    s.extra_lines["V"] = [(p, lasgen.fmt_item(*it)) for p, it in s.v_extra]
+
+
+def gen_v_extra(rng):
+    n = rng.choice([0, 0, 1, 1, 2, 3, 4])
+    items = []
+    for it in gen_items(rng, "V", n):
+        m = it[0]
+        if m.upper() in ("VERS", "WRAP", "DLM"):
+            continue
+        items.append(it)
+    return sorted([(rng.randint(0, 3), it) for it in items], key=lambda x: x[0])
+
+
 def gen_case(rng):
     s = lasgen.Spec()
     s.version = "2.0"
     s.null = "-999.25"
+    s.dlm = rng.choice([None, None, None, "SPACE", "SPACE"] + (["COMMA", "TAB"] if DLM_REWRITTEN else []))
+    set_v_extra(s, gen_v_extra(rng))
     big = rng.random() < 0.3
     s.well = [("STRT", rng.choice(["M", "FT", ""]), "1.0", rng.choice(["START", "S"])), ("STOP", "M", "3.0", rng.choice(["STOP", "E"])),
               ("STEP", "M", "1.0", "STEP")] + gen_items(rng, "W", 0 if big else rng.randint(0, 5))
@@ -170,13 +210,60 @@ def oracle(s, version, mcase, text0):
         return "~Curves differs: got %r expected %r" % (got_items(l2.curves), ec)
     if not items_equal(got_items(l2.params), expect_items(s.params, "P", mcase)):
         return "~Parameter differs: got %r expected %r" % (got_items(l2.params), expect_items(s.params, "P", mcase))
-    gv = got_items(l2.version)
-    if [g[0] for g in gv][:2] != [case_map("VERS", mcase), case_map("WRAP", mcase)] or not c08.same(gv[0][2], ("float", float(version))) \
-            or gv[1][2] != ("str", "NO"):
-        return "~Version differs: %r" % (gv,)
+    dlm_note = []
+    bad = version_oracle(s, version, mcase, got_items(l2.version), dlm_note)
+    if bad:
+        return bad
     if l2.other != "\n".join(x.strip() for x in s.other):
         return "~Other differs: %r vs %r" % (l2.other, s.other)
+    if dlm_note:
+        return dlm_note[0]
     return None
+
+
+VERS_STD = {1.2: "CWLS LOG ASCII STANDARD - VERSION 1.2", 2: "CWLS log ASCII Standard -VERSION 2.0"}
+
+
+def version_oracle(s, version, mcase, gv, dlm_note):
+    """the WHOLE ~Version section after write(version=v) -> read; a changed VALUE of a DLM COMMA/TAB item is appended to dlm_note"""
+    vi = version_items(s)
+    ev = expect_items(vi, "V", mcase)
+    if len(gv) != len(ev):
+        return "~Version differs: %d items came back, %d were written: got %r expected %r" % (len(gv), len(ev), gv, ev)
+    for g, e, it in zip(gv, ev, vi):
+        if it[0] == "VERS":
+            if g[0] != e[0] or g[1] != "" or not c08.same(g[2], ("float", float(version))) or g[3] not in (it[3], VERS_STD[version]):
+                return "~Version differs: VERS came back as %r after write(version=%r)" % (g, version)
+            continue
+        if it[0] == "DLM" and it[2] in ("COMMA", "TAB"):
+            # everything but the value is compared here; the value is judged last (see oracle)
+            if g[0] != e[0] or g[1] != e[1] or g[3] != e[3]:
+                return "~Version differs: DLM came back as %r" % (g,)
+            if not c08.same(g[2], e[2]):
+                dlm_note.append("DLM rewritten: ~Version DLM %r came back as %r" % (it[2], g[2][1]))
+            continue
+        if g[0] != e[0] or g[1] != e[1] or g[3] != e[3] or not c08.same(g[2], e[2]):
+            return "~Version differs: item %r came back as %r (whole section: got %r expected %r)" % (e, g, gv, ev)
+    return None
+
+
+def finding_of(payload):
+    """'dlm-rewritten' only when the input declares DLM COMMA/TAB and the oracle passes once the DLM item's VALUE is left out
+    of the comparison (the oracle emits the "DLM rewritten:" message only after every other comparison passed)."""
+    try:
+        if payload["spec"].get("dlm") not in ("COMMA", "TAB"):
+            return None
+        bad, what = replay(payload)
+        if bad and what.startswith("DLM rewritten:"):
+            return "dlm-rewritten"
+    except Exception:
+        pass
+    return None
+
+
+def spec_payload(s):
+    return {"well": s.well, "curves": s.curves, "params": s.params, "other": s.other, "null": s.null, "dlm": s.dlm,
+            "v_extra": [[p, list(it)] for p, it in getattr(s, "v_extra", [])]}
 
 
 def run(ctx):
@@ -184,21 +271,28 @@ def run(ctx):
     rng = ctx.rng
     n = 2500 if ctx.thorough else 150
     cases, meta, kinds = [], [], set()
-    hist = {"v1.2": 0, "upper": 0, "lower": 0, "blank_mnemonic": 0, "duplicate_mnemonic": 0, "empty_value_with_unit": 0}
+    hist = {"v1.2": 0, "upper": 0, "lower": 0, "blank_mnemonic": 0, "duplicate_mnemonic": 0, "empty_value_with_unit": 0,
+            "extra_version_items": 0, "files_with_extra_version_items": 0, "extra_version_item_before_VERS": 0, "dlm_item": 0,
+            "dlm_comma_tab": 0}
     for _ in range(n):
         s, version, mcase = gen_case(rng)
         text0 = lasgen.render(s)[0]
         bad = oracle(s, version, mcase, text0)
         if bad:
-            res.oracle_violations.append({"payload": {"text": text0, "version": version, "mcase": mcase,
-                                                      "spec": {"well": s.well, "curves": s.curves, "params": s.params, "other": s.other, "null": s.null}},
+            res.oracle_violations.append({"payload": {"text": text0, "version": version, "mcase": mcase, "spec": spec_payload(s)},
                                           "what": bad})
         ops = [("R", {"mnemonic_case": "preserve"}), ("W", {"version": version}), ("R", {"mnemonic_case": mcase})]
         c, r = wm.coq_case(text0, ops)
         cases.append(c)
         meta.append((text0, ops))
-        allit = s.well + s.curves + s.params
-        kinds.add((version, mcase, len(s.well), len(s.curves), len(s.params), len(s.other),
+        vx = [it for _, it in s.v_extra]
+        allit = s.well + s.curves + s.params + vx
+        hist["extra_version_items"] += len(vx)
+        hist["files_with_extra_version_items"] += bool(vx)
+        hist["extra_version_item_before_VERS"] += any(p == 0 for p, _ in s.v_extra)
+        hist["dlm_item"] += s.dlm is not None
+        hist["dlm_comma_tab"] += s.dlm in ("COMMA", "TAB")
+        kinds.add((version, mcase, len(s.well), len(s.curves), len(s.params), len(s.other), len(vx), s.dlm,
                    any(i[0].strip() == "" for i in allit), len({i[0] for i in allit}) != len(allit)))
         hist["v1.2"] += version == 1.2
         hist["upper"] += mcase == "upper"
@@ -215,7 +309,8 @@ def run(ctx):
         res.corr_error = "model not built"
     res.cases = len(cases)
     res.distinct_nontrivial = len(kinds)
-    res.rule = ("item lists for ~W/~C/~P (0..6 items, duplicate and blank mnemonics, each item in turn the widest) with fields from "
+    res.rule = ("item lists for ~W/~C/~P (0..6 items, duplicate and blank mnemonics, each item in turn the widest) and 0..4 items in "
+                "~Version besides VERS/WRAP/(DLM SPACE|COMMA|TAB, data delimited accordingly) at any position, the whole ~Version section compared, with fields from "
                 "the conformant alphabet (punctuation, quotes, brackets, empty fields, numeric-looking and long text), ~Other text; "
                 "read, written as 1.2 or 2.0, read back with preserve/upper/lower; non-trivial = distinct (version, case, section "
                 "sizes, blank?, duplicate?)")
@@ -232,6 +327,8 @@ def replay(payload):
     s.params = [tuple(x) for x in sp["params"]]
     s.other = sp["other"]
     s.null = sp["null"]
+    s.dlm = sp.get("dlm")
+    set_v_extra(s, [(p, tuple(it)) for p, it in sp.get("v_extra", [])])
     bad = oracle(s, payload["version"], payload["mcase"], payload["text"])
     return bad is not None, bad or "ok"
 
@@ -244,6 +341,5 @@ def search(ctx, res):
         text0 = lasgen.render(s)[0]
         bad = oracle(s, version, mcase, text0)
         if bad:
-            yield {"payload": {"text": text0, "version": version, "mcase": mcase,
-                               "spec": {"well": s.well, "curves": s.curves, "params": s.params, "other": s.other, "null": s.null}}, "what": bad}
+            yield {"payload": {"text": text0, "version": version, "mcase": mcase, "spec": spec_payload(s)}, "what": bad}
             return
